@@ -261,3 +261,29 @@ async fn k13_http_zero_size_at_offset_zero_does_not_panic() {
         .await;
     assert!(got.iter().any(|g| g.is_err()) || got == vec![Ok(0)], "{:?}", got);
 }
+
+// K15: strip_chunks_already_in_place computes "offsets in place" as (offsets of the chunk in the prior output) -
+// (offsets still wanted): with a chunk that the target wants at more places than the prior output holds it, none of
+// them in place, the subtraction underflows (panic in the debug profile) - an in-place clone of such a layout dies.
+#[test]
+fn k15_strip_in_place_statistics_underflow() {
+    use bitar::{ChunkIndex, HashSum};
+    let h = HashSum::from(&[7u8; 16][..]);
+    // prior output: the chunk once, at offset 50
+    let mut output_index = ChunkIndex::new_empty(16);
+    output_index.add_chunk(h.clone(), 10, &[50]);
+    // target: the same chunk at offsets 0, 10 and 20
+    let mut target = ChunkIndex::new_empty(16);
+    target.add_chunk(h.clone(), 10, &[0, 10, 20]);
+    let (n, bytes) = output_index.strip_chunks_already_in_place(&mut target);
+    assert_eq!((n, bytes), (0, 0), "no offset is in place");
+    assert_eq!(target.offsets(&h).unwrap().collect::<Vec<u64>>(), vec![0, 10, 20]);
+    // and the count is the number of target offsets found in place, not a difference of unrelated lengths
+    let mut output_index = ChunkIndex::new_empty(16);
+    output_index.add_chunk(h.clone(), 10, &[0, 50, 70]);
+    let mut target = ChunkIndex::new_empty(16);
+    target.add_chunk(h.clone(), 10, &[0, 10]);
+    let (n, bytes) = output_index.strip_chunks_already_in_place(&mut target);
+    assert_eq!((n, bytes), (1, 10), "exactly one offset (0) is in place");
+    assert_eq!(target.offsets(&h).unwrap().collect::<Vec<u64>>(), vec![10]);
+}
